@@ -236,9 +236,12 @@ VERIF_TARGET(c16_recover, nullptr, 0, 8,
              "RefLedger replay of the recovered tip; after ActivateBestChain chainwork(tip) >= chainwork(last completed full flush)")
 {
     std::vector<std::string> keep;
-    ChainSimOpts o = DiskOpts(keep, 0, /*prune=*/true);
+    // VH_C16_BATCH (bytes): coins-DB batch size of the recovering node; small values make the flush that ends ReplayBlocks a
+    // multi-batch flush, so that a SECOND crash during recovery can be placed between its partial batches
+    uint64_t rbatch = Env("VH_C16_BATCH").empty() ? 0 : std::stoull(Env("VH_C16_BATCH"));
+    ChainSimOpts o = DiskOpts(keep, rbatch, /*prune=*/true);
     std::string image = Env("VH_C16_IMAGE");
-    o.before_load = [image](const fs::path& d) { CopyDir(fs::PathFromString(image), d); };
+    o.before_load = [image](const fs::path& d) { CopyDir(fs::PathFromString(image), d); Mark("copied"); };
     o.assert_load = false;
     o.activate_on_load = false;
     SetMockTime(0);
